@@ -95,16 +95,20 @@ func (h H) leaderOnlyByMajority(rule string) {
 			h.C.Check(rule+" channel-before-requests", site, core.Dominates(mk, g), h.pos(g), "request goroutine started before the election's reply channel exists")
 		}
 		args := g.Call.Args
-		okArg := len(args) == 1 && sfi.Sym(args[0]).String() == "candidate.respCh"
+		okArg := false
+		for _, a := range args {
+			if sfi.Sym(a).String() == "candidate.respCh" {
+				okArg = true
+			}
+		}
 		h.C.Check(rule+" goroutine-gets-channel", site, okArg, h.pos(g), "the reply channel must be passed to the goroutine by value at start")
-		if mc, ok := g.Call.Value.(*ssa.MakeClosure); ok {
-			cl := mc.Fn.(*ssa.Function)
+		if cl := core.ClosureOf(g.Call.Value); cl != nil {
 			cfi := h.P.Info(cl)
 			n := 0
 			core.Instrs(cl, func(in ssa.Instruction) {
 				if snd, ok := in.(*ssa.Send); ok {
 					n++
-					h.C.Check(rule+" reply-on-own-channel", site+" send", cfi.Sym(snd.Chan).String() == "λ$0", h.pos(snd), "vote reply is sent on "+cfi.Sym(snd.Chan).String()+" instead of the channel captured at start")
+					h.C.Check(rule+" reply-on-own-channel", site+" send", cfi.Sym(snd.Chan).String() == "λ:candidate.respCh", h.pos(snd), "vote reply is sent on "+cfi.Sym(snd.Chan).String()+" instead of the channel captured at start")
 				}
 			})
 			h.C.Floor(rule+" (sends in request goroutine)", n, 1)
